@@ -210,13 +210,20 @@ def generate(shapes, seed, tier='quick'):
             lines.append('H %s %s %d %s | %s | %s' % (cid, sid, off, hexs(garbage(rng, n)), ini, ' | '.join(ops)))
             meta[cid] = {'op': 'H', 'shape': sid, 'off': off, 'len': n, 'init': ini, 'ops': ops}
         # ---- the offset of a sealed item must stay below L::MAX: items whose span is just below / at / above it
-        if t[0] == 'flex' and INTS[t[2]][0] == 1 and t[1][0] in ('vec', 'str') and align(t) == 1:
+        # (one-byte offset types: 255; two-byte ones, native and portable: 65535 — the latter only with string items,
+        # whose emplacer expression stays compact)
+        lsize = INTS[t[2]][0] if t[0] == 'flex' else 0
+        if t[0] == 'flex' and t[1][0] in ('vec', 'str') and (
+                (lsize == 1 and align(t) == 1) or (lsize == 2 and t[1][0] == 'str' and INTS[t[1][1]][0] >= 2)):
             et = t[1]
             es = ssize(et[1]) if et[0] == 'vec' else 1
             ed = min_size(et)
             os_ = min_size(t)
+            lmax = 256 ** lsize - 1
             if es in (1, 2):
-                for j, span in enumerate([253, 254, 255, 256]):
+                for j, span in enumerate([lmax - 2, lmax - 1, lmax, lmax + 1]):
+                    if span % align(t) != 0:
+                        continue
                     k = (span - os_ - ed) // es
                     if k < 0 or INTS[et[2] if et[0] == 'vec' else et[1]][0] == 1 and k > 255:
                         continue
@@ -229,7 +236,7 @@ def generate(shapes, seed, tier='quick'):
                                                            ('(flex %s %s)' % (big, small), ['(pop)', '(push %s)' % small]),
                                                            ('(flex %s)' % small, ['(push %s)' % big, '(push %s)' % small, '(truncate 1)'])]):
                         cid = '%s.HB%d_%d' % (sid, j, variant)
-                        n = 2 * span + 40
+                        n = 2 * span + 40 if lsize == 1 else span + 400
                         lines.append('H %s %s 0 %s | %s | %s' % (cid, sid, hexs(garbage(rng, n)), ini, ' | '.join(ops)))
                         meta[cid] = {'op': 'H', 'shape': sid, 'off': 0, 'len': n, 'init': ini, 'ops': ops}
     return lines, meta
